@@ -323,6 +323,18 @@ pub fn run(cx: &mut Ctx) {
     for (name, m) in directed() {
         cx.case(name, |c| check_content(c, name, &m, 12, det));
     }
+    if !cfg!(miri) && !det {
+        for which in 0..archive::THRESHOLD_VARIANTS {
+            cx.case("threshold", |c| {
+                let mut rng = c.rng.clone();
+                if let Some((name, m)) = archive::threshold_content(&mut rng, which, false) {
+                    c.rng = rng;
+                    c.sit("table_size_thresholds");
+                    check_content(c, &name, &m, 3, false);
+                }
+            });
+        }
+    }
     let n = if det { cx.a.n(600, 6000) } else { cx.a.n(600_000, 4_000_000) };
     let quick = cx.a.quick();
     for _ in 0..n {
